@@ -26,15 +26,16 @@
     ([C09_marks_cover]), so an accepted graph has no cycle that avoids the flagged declarations
     ([C09_flagged_cut_every_cycle]); if the graph has an edge for every use of a declaration in
     another's right-hand side and flagged declarations are the ones the evaluator memoises (how
-    compile.rs builds the graph and stores the flags: two hypotheses, observed by the
-    stratification tie), the program has no cycle of uses avoiding memoised declarations
+    compile.rs builds the graph and stores the flags: two hypotheses, each observed by the tie
+    on every accepted program: the real definition graph is dumped and must contain every pair
+    of [EvalIO.use_edges], and no flagged declaration has parameters), the program has no cycle of uses avoiding memoised declarations
     ([C09_accepted_is_acyclic]) and, its bodies being first order, it is stratified
     ([C09_accepted_first_order_is_stratified]); [Strat.stratified] itself is exactly "first-order
     bodies and no such cycle" ([C09_stratified_iff]: the relaxation finds ranks whenever ranks
     exist). Component names are hashes of these keys in the code (sha256, distinct
     inputs are assumed to give distinct names; the relocation monitor observes them). *)
 From Oal Require Import Cycles CyclesProofs.
-From Oal Require Eval Strat TermProofs ClosureProofs FreshProofs RankProofs RecursionLink.
+From Oal Require Eval EvalIO Strat TermProofs ClosureProofs FreshProofs RankProofs RecursionLink.
 
 Theorem C09_cycles_check_spec :
   forall referential scc, scc_spec scc -> forall fuel ns g marks,
@@ -165,3 +166,11 @@ Theorem C09_accepted_first_order_is_stratified : forall P referential scc, scc_s
   Strat.stratified P rs = true.
 Proof. exact RecursionLink.accepted_first_order_is_stratified. Qed.
 Print Assumptions C09_accepted_first_order_is_stratified.
+
+Theorem C09_accepted_is_acyclic_by_use_edges : forall P referential scc, scc_spec scc -> forall (nu : N -> N -> N) ns g marks,
+  (forall x y, In (x, y) (EvalIO.use_edges P) -> In (nu (fst x) (snd x), nu (fst y) (snd y)) g) ->
+  (forall m i, In (nu m i) marks -> Strat.cutb P m i = true) ->
+  cycles_check referential scc (S (length g)) ns g [] = COk marks ->
+  ~ RankProofs.cyclic P.
+Proof. exact RecursionLink.accepted_is_acyclic_by_use_edges. Qed.
+Print Assumptions C09_accepted_is_acyclic_by_use_edges.
